@@ -27,6 +27,7 @@ void vt_hex(const char *k, const uint8_t *p, size_t n)
 	for (size_t i = 0; i < n; i++) fprintf(tf, "%02x", p[i]);
 	fputc('"', tf);
 }
+void vt_raw(const char *k, const char *json) { if (tf) fprintf(tf, ",\"%s\":%s", k, json); }
 void vt_end(void) { if (tf) { fputs("}\n", tf); fflush(tf); } pthread_mutex_unlock(&tmu); }
 
 // ---------------- entropy ----------------
